@@ -2,8 +2,10 @@ package rules
 
 import (
 	"fmt"
+	"go/constant"
 	"go/token"
 	"go/types"
+	"math"
 	"strings"
 
 	"golang.org/x/tools/go/ssa"
@@ -412,7 +414,14 @@ func checkC24(c *Ctx) {
 	c.Rule("C24.min", "Composite.Print returns an error before printing anything when fewer lines than MinLines() are granted; view.Print never asks for more lines than the screen has")
 	c.Rule("C24.fixed", "a view of fixed height prints what it counts: regView.lines() and regView.Print agree on whether the instruction-pointer register is shown")
 	n := checkLineIndices(c, "C24.index", isPrintLike)
-	c.RequireCount("C24.index index uses in Print methods", n, 2)
+	c.RequireCount("C24.index index uses in Print methods", n, 1)
+	c.Rule("C24.window", "the Print methods of the listing view and of the memory view (with every module function they call), walked concretely for every number of lines 1..7, every cursor position and every granted height 1..lines+3: every index into the line slice lies inside it and at most as many lines are printed as were granted")
+	for _, name := range []string{"(*" + pkgUI + "/internal/lines.View).Print", "(*" + pkgUI + "/internal/memview.memoryView).Print"} {
+		if pf := anchor(c, name); pf != nil {
+			nw := windowWalk(c, "C24.window", pf)
+			c.RequireCount("C24.window states walked for "+ShortName(pf), nw, 50)
+		}
+	}
 
 	pkgView := pkgUI + "/internal/view"
 	if dl := anchor(c, "(*"+pkgView+".Composite).distributeLines"); dl != nil {
@@ -577,18 +586,15 @@ func checkC24(c *Ctx) {
 // --------------------------------------------------------------------- C30
 
 func checkC30(c *Ctx) {
-	c.Rule("C30.input", "parseAddr slices/indexes its argument with a constant only under a dominating length check")
-	c.Rule("C30.prefix", "prefix/base/strip agreement in parseAddr: a prefix literal of length k is compared with s[:k] under a length check that admits longer inputs, selects the base the literal stands for (0x/0X 16, 0b/0B 2, 0 8, otherwise 10) and strips exactly k characters; the number is parsed with 64 bits and converted to model.Addr")
-	c.Rule("C30.value", "readValue rejects the empty line and any underscore before big.Int.SetString(line, 0); a negative number becomes ConstFold(Sub(Zero, |n|, w)); the magnitude is NewConst(little-endian bytes, w)")
+	c.Rule("C30.prefix", "parseAddr, walked concretely on 19 sample arguments bound to literal strings (every notation of the property in both letter cases, the largest 64-bit value, and malformed/short arguments): no slice or index leaves the string, and what reaches strconv.ParseUint is the digits behind the prefix, in the base the prefix stands for (0x/0X 16, 0b/0B 2, leading 0 8, otherwise 10; a lone 0 is decimal), with 64 bits; the result is returned as model.Addr")
+	c.Rule("C30.value", "readValue, walked concretely on 11 typed lines, answers the empty line and every line containing an underscore with an error before big.Int.SetString and hands every other line unchanged to SetString(line, 0); a negative number becomes ConstFold(Sub(Zero, |n|, w)); the magnitude is NewConst(little-endian bytes, w)")
 	pkgMv := pkgUI + "/internal/memview"
-	n := checkInputIndexing(c, "C30.input", func(fn *ssa.Function) bool { return strings.Contains(fileOf(c, fn), "memview/commands.go") })
-	c.RequireCount("C30.input constant indexing in parseAddr", n, 5)
 	pa := anchor(c, pkgMv+".parseAddr")
 	if pa != nil {
 		var pu *ssa.Call
-		for _, cs := range Calls(pa) {
-			if f := Callee(cs.Common()); f != nil && f.String() == "strconv.ParseUint" {
-				pu, _ = cs.Instr.(*ssa.Call)
+		for _, st := range DeepCalls(pa, InModulePkg(pa)) {
+			if f := Callee(st.Call().Common()); f != nil && f.String() == "strconv.ParseUint" {
+				pu, _ = st.Instr.(*ssa.Call)
 			}
 		}
 		if pu == nil {
@@ -596,56 +602,66 @@ func checkC30(c *Ctx) {
 		} else {
 			bits, _ := ConstInt(pu.Call.Args[2])
 			c.Oblige("C30.prefix", ShortName(pa)+"/64-bit", c.Prog.Pos(pu.Pos()), bits == 64, fmt.Sprintf("the number is parsed with %d bits, addresses have 64", bits))
-			spec := map[string]int64{"0x": 16, "0X": 16, "0b": 2, "0B": 2, "0": 8}
-			sPhi, _ := pu.Call.Args[0].(*ssa.Phi)
-			bPhi, _ := pu.Call.Args[1].(*ssa.Phi)
-			if sPhi == nil || bPhi == nil || sPhi.Block() != bPhi.Block() {
-				c.Fail("C30.prefix", ShortName(pa)+"/shape", c.Prog.Pos(pu.Pos()), "base and digits are not selected together")
-			} else {
-				seen := map[string]bool{}
-				for i := range bPhi.Edges {
-					base, _ := ConstInt(bPhi.Edges[i])
-					pred := bPhi.Block().Preds[i]
-					lits := prefixLiterals(pred, ssa.Value(pa.Params[0]))
-					strip := int64(0)
-					if sl, ok := sPhi.Edges[i].(*ssa.Slice); ok && sl.X == ssa.Value(pa.Params[0]) && sl.High == nil && sl.Low != nil {
-						strip, _ = ConstInt(sl.Low)
-					} else if sPhi.Edges[i] != ssa.Value(pa.Params[0]) {
-						strip = -1
+			// parseAddr walked concretely (E7 with literal strings) on sample
+			// arguments: what reaches ParseUint must be the digits behind the
+			// prefix in the base the prefix stands for, and no slice or index may
+			// leave the string
+			type sample struct {
+				in    string
+				base  int64
+				strip int
+			}
+			samples := []sample{
+				{"0x1f", 16, 2}, {"0X1F", 16, 2}, {"0b101", 2, 2}, {"0B11", 2, 2}, {"017", 8, 1}, {"00", 8, 1},
+				{"0", 10, 0}, {"5", 10, 0}, {"123", 10, 0}, {"18446744073709551615", 10, 0}, {"0xffffffffffffffff", 16, 2},
+				// only "no crash, answered by the number parser":
+				{"", -1, 0}, {"x", -1, 0}, {"0x", -1, 0}, {"0b", -1, 0}, {"0X", -1, 0}, {"-1", -1, 0}, {"1_0", -1, 0}, {"b", -1, 0},
+			}
+			nIn := 0
+			for _, sm := range samples {
+				sm := sm
+				var gotBase int64 = -1
+				gotDigits, reached := "", false
+				sw := &StrWalk{Bind: func(v ssa.Value) (string, bool) {
+					if v == ssa.Value(pa.Params[0]) {
+						return sm.in, true
 					}
-					if len(lits) == 0 {
-						c.Oblige("C30.prefix", fmt.Sprintf("%s/no-prefix#%d", ShortName(pa), i), c.Prog.Pos(pu.Pos()), base == 10 && strip == 0, fmt.Sprintf("without a prefix the base is %d and %d characters are stripped (expected base 10, none)", base, strip))
-						continue
-					}
-					for _, l := range lits {
-						seen[l.lit] = true
-						key := fmt.Sprintf("%s/prefix %q", ShortName(pa), l.lit)
-						want, known := spec[l.lit]
-						switch {
-						case !known:
-							c.Fail("C30.prefix", key, c.Prog.Pos(l.pos), "unknown prefix literal")
-						case int64(len(l.lit)) != l.k:
-							c.Fail("C30.prefix", key, c.Prog.Pos(l.pos), fmt.Sprintf("a literal of %d characters is compared with the first %d characters", len(l.lit), l.k))
-						case base != want:
-							c.Fail("C30.prefix", key, c.Prog.Pos(l.pos), fmt.Sprintf("prefix selects base %d, it stands for base %d", base, want))
-						case strip != int64(len(l.lit)):
-							c.Fail("C30.prefix", key, c.Prog.Pos(l.pos), fmt.Sprintf("%d characters are stripped after a %d-character prefix", strip, len(l.lit)))
-						case l.exactLen:
-							c.Fail("C30.prefix", key, c.Prog.Pos(l.pos), "the prefix is recognised only when the input consists of the prefix alone (length test with ==): a number with this prefix is not parsed in its base")
-						case l.minLen <= int64(len(l.lit)) && l.lit != "0":
-							// handled by C30.input (crash) - not repeated here
-							c.Pass("C30.prefix", key, c.Prog.Pos(l.pos), "length check decided by C30.input")
-						case l.lit == "0" && l.minLen < 2:
-							c.Fail("C30.prefix", key, c.Prog.Pos(l.pos), "a lone \"0\" is treated as an octal prefix with no digits: the address 0 cannot be entered")
-						default:
-							c.Pass("C30.prefix", key, c.Prog.Pos(l.pos), "")
+					return "", false
+				}}
+				vl := &Valuation{Enter: SamePackage(pa)}
+				vl.Visit = func(in ssa.Instruction) {
+					if call, ok := in.(*ssa.Call); ok && call.Call.StaticCallee() != nil && call.Call.StaticCallee().String() == "strconv.ParseUint" {
+						reached = true
+						gotDigits, _ = sw.StrOf(call.Call.Args[0])
+						if n, ok := vl.EvalInt(call.Call.Args[1], nil); ok {
+							gotBase = n
 						}
 					}
 				}
-				for lit := range spec {
-					c.Oblige("C30.prefix", fmt.Sprintf("%s/has-prefix %q", ShortName(pa), lit), c.Prog.FuncPos(pa), seen[lit], "prefix is not recognised")
+				sw.Install(vl)
+				res := vl.Walk(pa.Blocks[0], nil)
+				nIn++
+				key := fmt.Sprintf("%s/argument %q", ShortName(pa), sm.in)
+				why := ""
+				switch {
+				case sw.Crash != "":
+					why = "the argument crashes the program: " + sw.Crash
+				case !reached && res.OK:
+					if _, isPanic := res.End.(*ssa.Panic); isPanic {
+						why = "the argument makes parseAddr panic"
+					} else if sm.base >= 0 {
+						why = "the argument is rejected without being parsed"
+					}
+				case !reached:
+					why = "the walk cannot be followed to the number parser: " + res.Why
+				case sm.base >= 0 && gotBase != sm.base:
+					why = fmt.Sprintf("parsed in base %d, the notation stands for base %d", gotBase, sm.base)
+				case sm.base >= 0 && gotDigits != sm.in[sm.strip:]:
+					why = fmt.Sprintf("the digits handed to the parser are %q, expected %q", gotDigits, sm.in[sm.strip:])
 				}
+				c.Oblige("C30.prefix", key, c.Prog.FuncPos(pa), why == "", why)
 			}
+			c.RequireCount("C30.prefix sample arguments walked", nIn, 15)
 			// result conversion
 			okConv := false
 			for _, b := range pa.Blocks {
@@ -669,34 +685,59 @@ func checkC30(c *Ctx) {
 		if setString == nil {
 			c.Undecide("C30.value: readValue does not call big.Int.SetString")
 		} else {
-			line := setString.Call.Args[1]
 			base, _ := ConstInt(setString.Call.Args[2])
-			emptyOK := false
-			for _, g := range GuardsOf(setString.Block()) {
-				if bo, ok := g.Cond.(*ssa.BinOp); ok && matches(bo.X, lenOf(line)) {
-					if z, isZ := ConstInt(bo.Y); isZ && z == 0 && ((bo.Op == token.EQL && !g.Outcome) || (bo.Op == token.NEQ && g.Outcome) || (bo.Op == token.GTR && g.Outcome)) {
-						emptyOK = true
-					}
-				}
-			}
-			// underscore loop: a return with non-nil error guarded by c == '_' inside a range over line, and the loop dominates SetString
-			underscoreOK := false
-			for _, b := range rv.Blocks {
-				ret, ok := b.Instrs[len(b.Instrs)-1].(*ssa.Return)
-				if !ok || IsNilConst(ret.Results[1]) {
-					continue
-				}
-				for _, g := range GuardsOf(b) {
-					if bo, ok := g.Cond.(*ssa.BinOp); ok && bo.Op == token.EQL && g.Outcome {
-						if k, isK := ConstInt(bo.Y); isK && k == '_' {
-							if !reachableBlock(setString.Block(), b) && g.If.Block().Dominates(b) {
-								underscoreOK = true
-							}
+			// readValue walked concretely on typed lines: the empty line and any
+			// line with an underscore end in an error before SetString is
+			// reached; every other line reaches SetString unchanged
+			nLines := 0
+			for _, line := range []string{"", "_", "1_0", "_1", "0x_ff", "12", "-5", "0x1F", "0b101", "017", "+3"} {
+				line := line
+				reached, arg := false, ""
+				sw := &StrWalk{Bind: func(v ssa.Value) (string, bool) {
+					if ex, ok := v.(*ssa.Extract); ok && ex.Index == 0 {
+						if call, ok := ex.Tuple.(*ssa.Call); ok && call.Call.StaticCallee() != nil && call.Call.StaticCallee().Name() == "ReadLine" {
+							return line, true
 						}
 					}
+					return "", false
+				}}
+				vl := &Valuation{Enter: SamePackage(rv)}
+				vl.Bool = func(v ssa.Value) (bool, bool) {
+					// reading the line does not fail
+					if bo, ok := v.(*ssa.BinOp); ok && (bo.Op == token.EQL || bo.Op == token.NEQ) && (IsNilConst(bo.X) || IsNilConst(bo.Y)) && !reached {
+						return bo.Op == token.EQL, true
+					}
+					return false, false
 				}
+				vl.Visit = func(in ssa.Instruction) {
+					if call, ok := in.(*ssa.Call); ok && call.Call.StaticCallee() != nil && call.Call.StaticCallee().String() == "(*math/big.Int).SetString" {
+						reached = true
+						arg, _ = sw.StrOf(call.Call.Args[1])
+					}
+				}
+				sw.Install(vl)
+				res := vl.Walk(rv.Blocks[0], nil)
+				nLines++
+				wantReject := line == "" || strings.Contains(line, "_")
+				why := ""
+				switch {
+				case sw.Crash != "":
+					why = "the line crashes the program: " + sw.Crash
+				case wantReject && reached:
+					why = "the line reaches big.Int.SetString instead of being rejected"
+				case wantReject:
+					if ret, isRet := res.End.(*ssa.Return); !res.OK || !isRet || IsNilConst(ret.Results[1]) {
+						why = "the line is not answered with an error (" + res.Why + ")"
+					}
+				case !reached:
+					why = "the line does not reach big.Int.SetString (" + res.Why + ")"
+				case arg != line:
+					why = fmt.Sprintf("big.Int.SetString is given %q", arg)
+				}
+				c.Oblige("C30.value", fmt.Sprintf("%s/line %q", ShortName(rv), line), c.Prog.FuncPos(rv), why == "", why)
 			}
-			c.Oblige("C30.value", ShortName(rv)+"/rejections", c.Prog.Pos(setString.Pos()), emptyOK && underscoreOK && base == 0, "the empty line / underscores are not rejected before SetString(line, 0)")
+			c.RequireCount("C30.value lines walked", nLines, 11)
+			c.Oblige("C30.value", ShortName(rv)+"/base-0", c.Prog.Pos(setString.Pos()), base == 0, "big.Int.SetString is not called with base 0 (prefix-selected base)")
 			// negative branch
 			negOK, absOK := false, false
 			for _, b := range rv.Blocks {
@@ -1139,6 +1180,96 @@ func block2LinesWalk(bl *ssa.Function) string {
 	return ""
 }
 
+// windowWalk: see rule C24.window. Returns the number of states walked.
+func windowWalk(c *Ctx, rule string, pf *ssa.Function) int {
+	inModule := func(g *ssa.Function) bool {
+		return g != nil && g.Blocks != nil && strings.HasPrefix(PkgPathOf(g), ModulePath+"/")
+	}
+	isLinesSlice := func(vl *Valuation, v ssa.Value) bool {
+		n, _, ok := FieldNameOfLoad(vl.Root(v))
+		return ok && n == "lines"
+	}
+	walked := 0
+	firstBad := ""
+	for L := int64(1); L <= 7 && firstBad == ""; L++ {
+		for cur := int64(0); cur < L && firstBad == ""; cur++ {
+			for n := int64(1); n <= L+3 && firstBad == ""; n++ {
+				printed := int64(0)
+				bad := ""
+				var vl *Valuation
+				vl = &Valuation{
+					Enter: inModule,
+					Int: func(v ssa.Value) (int64, bool) {
+						if vl.Root(v) == ssa.Value(pf.Params[1]) {
+							return n, true
+						}
+						switch x := v.(type) {
+						case *ssa.Call:
+							if bi, ok := x.Call.Value.(*ssa.Builtin); ok && bi.Name() == "len" {
+								if isLinesSlice(vl, x.Call.Args[0]) {
+									return L, true
+								}
+								return 1, true
+							}
+							if f := x.Call.StaticCallee(); f != nil && f.Name() == "Value" && strings.Contains(f.String(), "cursor.Cursor") {
+								return cur, true
+							}
+						}
+						// int(math.Floor(float64(x) / k)): conversions are looked through,
+						// so the value seen is the call of math.Floor
+						if call, ok := v.(*ssa.Call); ok && call.Call.StaticCallee() != nil && call.Call.StaticCallee().String() == "math.Floor" {
+							if q, ok := call.Call.Args[0].(*ssa.BinOp); ok && q.Op == token.QUO {
+								if num, ok := vl.EvalInt(q.X, nil); ok {
+									if k, ok := q.Y.(*ssa.Const); ok && k.Value != nil {
+										if f, _ := constant.Float64Val(constant.ToFloat(k.Value)); f != 0 {
+											return int64(math.Floor(float64(num) / f)), true
+										}
+									}
+								}
+							}
+						}
+						return 0, false
+					},
+				}
+				vl.Visit = func(in ssa.Instruction) {
+					switch x := in.(type) {
+					case *ssa.IndexAddr:
+						if isLinesSlice(vl, x.X) {
+							if i, ok := vl.EvalInt(x.Index, nil); !ok {
+								bad = "an index into the lines cannot be evaluated"
+							} else if i < 0 || i >= L {
+								bad = fmt.Sprintf("line index %d is used", i)
+							}
+						}
+					case *ssa.Call:
+						if f := x.Call.StaticCallee(); f != nil && (f.String() == "fmt.Printf" || f.String() == "fmt.Print" || f.String() == "fmt.Println") {
+							printed++
+						}
+					}
+				}
+				res := vl.Walk(pf.Blocks[0], nil)
+				walked++
+				where := fmt.Sprintf("with %d lines, the cursor on line %d and %d lines granted: ", L, cur, n)
+				switch {
+				case bad != "":
+					firstBad = where + bad
+				case !res.OK:
+					firstBad = where + "the method cannot be followed (" + res.Why + ")"
+				case func() bool { _, p := res.End.(*ssa.Panic); return p }():
+					firstBad = where + "the method panics"
+				case printed > n:
+					firstBad = where + fmt.Sprintf("%d lines are printed", printed)
+				}
+			}
+		}
+	}
+	c.Oblige(rule, ShortName(pf), c.Prog.FuncPos(pf), firstBad == "", firstBad)
+	if firstBad != "" {
+		return 1 << 20 // the walk stops at the first failing state; not a vacuity problem
+	}
+	return walked
+}
+
 func headerPhi(p *ssa.Phi) *ssa.Phi {
 	for _, pred := range p.Block().Preds {
 		if p.Block().Dominates(pred) {
@@ -1170,7 +1301,7 @@ func checkC32(c *Ctx) {
 	n := checkLineIndices(c, "C32.index", func(fn *ssa.Function) bool {
 		return strings.Contains(fileOf(c, fn), "memview/view.go")
 	})
-	c.RequireCount("C32.index index uses in memview/view.go", n, 1)
+	_ = n // the window arithmetic of the memory view is decided by the concrete walk C24.window; this taint rule may have nothing left to judge
 	if bl := anchor(c, pkgMv+".block2Lines"); bl != nil {
 		bad := block2LinesWalk(bl)
 		c.Oblige("C32.rows", ShortName(bl), c.Prog.FuncPos(bl), bad == "", bad)
@@ -1182,8 +1313,8 @@ func checkC32(c *Ctx) {
 		}
 		act := cl.Action
 		contains, errRet := false, false
-		for _, cs := range Calls(act) {
-			if f := Callee(cs.Common()); f != nil && Origin(f).Name() == "Containts" {
+		for _, st := range DeepCalls(act, InModulePkg(act)) {
+			if f := Callee(st.Call().Common()); f != nil && Origin(f).Name() == "Containts" {
 				contains = true
 			}
 		}
